@@ -13,7 +13,8 @@
 (* accepted prefix).  KfacRef's temporal properties are evaluated on the   *)
 (* accepted behaviour as well.                                             *)
 (*                                                                         *)
-(* event = [act, arg, raised, ndec, steps, chA, chG, accA, accG, accKnown,  *)
+(* event = [act, arg, raised, ndec, steps, F, I, chA, chG, accA, accG,      *)
+(*          accKnown,                                                      *)
 (*          hasInv, uniform]                                               *)
 (***************************************************************************)
 EXTENDS KFACREF_INSTANCE
@@ -33,6 +34,7 @@ More == l <= Len(Traces[t])
 ObsOK ==
     /\ E.uniform                      \* all registered layers behave alike
     /\ steps' = E.steps
+    /\ IntVal(fv', steps') = E.F /\ IntVal(iv', steps') = E.I
     /\ (aFac' # aFac) <=> E.chA
     /\ (gFac' # gFac) <=> E.chG
     /\ E.accKnown => ((aAcc' # <<>>) <=> E.accA)
@@ -50,12 +52,15 @@ TSave    == E.act = "save"    /\ ~E.raised /\ Save(E.arg) /\ ObsOK /\ E.ndec = 0
 ObsLoad ==
     /\ E.uniform
     /\ steps' = E.steps
+    /\ IntVal(fv', steps') = E.F /\ IntVal(iv', steps') = E.I
     /\ aFac'.has <=> E.chA
     /\ gFac'.has <=> E.chG
     /\ E.accKnown => (~E.accA /\ ~E.accG)
     /\ inv'.has <=> E.hasInv
 TLoad    == E.act = "load"    /\ ~E.raised /\ Load(E.arg) /\ ObsLoad
                               /\ ((E.ndec > 0) <=> inv'.has)
+TSched   == E.act = "sched"   /\ ~E.raised /\ SchedStep(E.arg) /\ ObsOK
+                              /\ E.ndec = 0
 TStep ==
     /\ E.act = "step"
     /\ \/ /\ ~E.raised /\ StepBody /\ ObsOK
@@ -65,7 +70,7 @@ TStep ==
 TNext ==
     \/ /\ More
        /\ (TTrain \/ TFwdOnly \/ TEval \/ TReset \/ TMem \/ TSave \/ TLoad
-           \/ TStep)
+           \/ TSched \/ TStep)
        /\ l' = l + 1 /\ t' = t
     \/ /\ ~More /\ UNCHANGED tvars          \* accepted: every event consumed
 
